@@ -94,7 +94,7 @@ class Probe:
         self.orig_write = batching.CacheManager.write_cache
         probe = self
 
-        def run_pipeline(bal, reactions, stats=None):
+        def run_pipeline(bal, reactions, stats=None, *a, **kw):
             ent = probe.pipeline_entry(bal, reactions)
             if probe.log is not None:
                 probe.log["pipeline_called"] = True
@@ -104,10 +104,10 @@ class Probe:
                 raise RuntimeError("injected pipeline failure")
             return copy.deepcopy(ent["rows"])
 
-        def rebalance_batch(bal, batch, cache_manager):
+        def rebalance_batch(bal, batch, cache_manager, *a, **kw):
             log = probe.log
             if log is None:
-                return probe.orig_batch(bal, batch, cache_manager)
+                return probe.orig_batch(bal, batch, cache_manager, *a, **kw)
             idx = log["n"]
             log["n"] += 1
             log["pipeline_called"] = False
@@ -116,7 +116,7 @@ class Probe:
             probe.armed = armed
             probe.fired = False
             try:
-                result, stats = probe.orig_batch(bal, batch, cache_manager)
+                result, stats = probe.orig_batch(bal, batch, cache_manager, *a, **kw)
             finally:
                 probe.armed = False
             log["batches"].append(
@@ -341,11 +341,11 @@ class World:
         return {"files": files, "nested": sorted(nested)}
 
     # -- operations on the real code ---------------------------------------------------------------------------------
-    def call(self, ci, name, form, bs, output_dict, cache, fault=None):
+    def call(self, ci, name, form, bs, output_dict, cache, fault=None, want_stats=True):
         bal = self.balancer(ci, cache)
         log = {"n": 0, "batches": [], "pipeline_called": False}
         self.probe.log, self.probe.fault = log, fault
-        stats = {}
+        stats = {} if want_stats else None  # `rebalance(stats=None)` is the default of the public API
         res = {"status": "completed", "log": log}
         try:
             with contextlib.redirect_stderr(io.StringIO()):  # the library prints the traceback of every swallowed exception
@@ -360,10 +360,10 @@ class World:
             self.probe.log, self.probe.fault = None, None
         return res
 
-    def reference(self, ci, name, form, bs, output_dict):
-        k = (ci, name, form, bs, output_dict)
+    def reference(self, ci, name, form, bs, output_dict, want_stats=True):
+        k = (ci, name, form, bs, output_dict, want_stats)
         if k not in self.ref_memo:
-            self.ref_memo[k] = self.call(ci, name, form, bs, output_dict, cache=False)
+            self.ref_memo[k] = self.call(ci, name, form, bs, output_dict, cache=False, want_stats=want_stats)
         return self.ref_memo[k]
 
 
@@ -383,7 +383,7 @@ def apply_real(w, op):
             nonempty_before = sum(1 for b in seq[:at] if b != 0)
             if at < len(seq) and seq[at] != 0:
                 fault = {"at": nonempty_before, "kind": "kill" if kind == "crash" else "ioError", "point": op["point"], "k": op.get("k", 0)}
-        r = w.call(op["cfg"], op["input"], op["form"], op["bs"], op.get("output_dict", True), True, fault)
+        r = w.call(op["cfg"], op["input"], op["form"], op["bs"], op.get("output_dict", True), True, fault, want_stats=op.get("stats", True))
         if kind == "crash" and r["status"] == "completed":
             r["status"] = "killed"  # `at` is past the last non-empty batch: killed after the loop, before returning
             r.pop("rows", None)
@@ -432,7 +432,7 @@ def statement(ctx, w, hist, i, op, real):
     if op["kind"] not in ("run", "ioError"):
         return True
     od = op.get("output_dict", True)
-    ref = w.reference(op["cfg"], op["input"], op["form"], op["bs"], od)
+    ref = w.reference(op["cfg"], op["input"], op["form"], op["bs"], od, op.get("stats", True))
     witness = {"history": [describe(o) for o in hist[: i + 1]], "configs": CFGS, "inputs": {k: INPUTS[k] for k in sorted({o["input"] for o in hist[: i + 1] if "input" in o})}}
     if ref["status"] != "completed":
         ctx.notes.append("uncached reference run did not complete: %s" % ref.get("error"))
@@ -508,6 +508,7 @@ def gen_op(ctx, w, rng, hist):
     else:
         op.update(cfg=rng.randrange(len(CFGS)), input=rng.choice(sorted(INPUTS)), form=rng.choice(FORMS), bs=rng.choice(BATCH_SIZES))
     op["output_dict"] = rng.random() < 0.8
+    op["stats"] = rng.random() < 0.7  # whether the caller passes a statistics dictionary
     if op["kind"] != "run":
         seq = w.batches_of(op["cfg"], op["input"], op["form"], op["bs"])
         op["at"] = rng.randint(0, len(seq)) if rng.random() < 0.25 else rng.randrange(max(1, len(seq)))
@@ -613,8 +614,8 @@ def compare_with_model(ctx, label, runs):
 
 
 # ------------------------------------------------------------------------------------------------ fixed scenarios
-def R(cfg, inp, bs=None, form="str", od=True):
-    return {"kind": "run", "cfg": cfg, "input": inp, "form": form, "bs": bs, "output_dict": od}
+def R(cfg, inp, bs=None, form="str", od=True, stats=True):
+    return {"kind": "run", "cfg": cfg, "input": inp, "form": form, "bs": bs, "output_dict": od, "stats": stats}
 
 
 def X(kind, cfg, inp, at, point, k=0, bs=None, form="str"):
@@ -648,6 +649,9 @@ REGRESSION = {
     "failing-batch": [R(0, "D", 1), R(0, "D", 1), R(0, "D"), R(0, "D"), R(0, "D", 2)],
     "empty-input": [R(0, "E"), R(0, "E", 1), R(0, "A", 2), R(0, "A", 1)],
     "same-key-twice-in-a-run": [R(0, "F", 1), R(0, "F", 1), T(0, "F", 0, 7, bs=1), R(0, "F", 1)],
+    # the caller's interest in statistics is not part of the key: entries written by a run without a statistics dictionary
+    # must serve a later run that asks for one (and the other way round)
+    "stats-not-requested-then-requested": [R(0, "C", 2, stats=False), R(0, "C", 2), R(0, "C", 2, stats=False), R(2, "B", stats=False), R(2, "B")],
     "rows-only-output": [R(0, "B", od=False), R(0, "B", od=False), R(2, "B", od=False)],
 }
 
